@@ -75,7 +75,7 @@ theorem mkSt_rec_ok (rss : List (List Bytes)) (hrss : RssOk rss) (hne : rss ≠ 
       ((s.base.offBegin = bndR rss n k ∧ s.base.offEnd = bndR rss n (k + 1)) ∨
        (s.base.offEnd ≤ s.base.offBegin ∧ bndR rss n k = bndR rss n (k + 1))) := by
   obtain ⟨s', hs', hC, hR, hF, _, _, hrg⟩ :=
-    resetPartition_rec rss hrss hne ht (blank (recFiles rss) dw) rfl k n hk hn
+    resetPartition_rec rss hrss hne ht (blank (recFiles rss) dw) rfl (clearsOk_blank _ dw) k n hk hn
   refine ⟨{ base := { s' with bufWords := w }, wrap := none }, ?_, rfl, hC, hR, hF, rfl, hrg⟩
   rw [mkSt_rec_eq (recFiles rss) k n w dw (recFiles_ne_nil rss hne) (recFiles_ne rss hrss)
     (recFiles_mod4 rss hrss), hs']
